@@ -467,9 +467,14 @@ pub fn gen_case(t: &mut Tape, forms: &[Form], o: &GenOpts) -> Option<NCase> {
             let segbase = match p.seg {
                 Register::GS => {
                     let tt = &mut *t;
-                    gs = match tt.below(6) {
+                    let gcls = tt.below(8);
+                    gs = match gcls {
                         0 => 0,
                         1 => tt.below(0x1000),
+                        // a base that is a multiple of 4 GiB (handled below: the offset is solved as if the base
+                        // were 0, so the true linear address lies above 4 GiB and is unmapped, while an
+                        // implementation that truncates the *linear* address to 32 bits lands in the arena)
+                        6 | 7 => (1 + tt.below(0x7ffe)) << 32,
                         2 => 0x0000_7fff_ffff_f000 - tt.below(0x1000),
                         3 => 0xffff_8000_0000_0000 + tt.below(0x10000),
                         4 => (tt.raw() & 0x0000_7fff_ffff_ffff) | if tt.bool() { 0xffff_8000_0000_0000 } else { 0 },
@@ -479,7 +484,12 @@ pub fn gen_case(t: &mut Tape, forms: &[Form], o: &GenOpts) -> Option<NCase> {
                     if (gs >> 47) != 0 && (gs >> 47) != 0x1ffff {
                         gs &= 0x0000_7fff_ffff_ffff;
                     }
-                    gs
+                    if gcls >= 6 && p.addr32 {
+                        note.push_str("gs-above-4GiB-with-addr32 ");
+                        0
+                    } else {
+                        gs
+                    }
                 }
                 Register::FS => {
                     let tt = &mut *t;
